@@ -531,7 +531,14 @@ def compiled_graph(I: Interp, routines: list[list[AObj]], branch_ops: set[str], 
         n = by_off[off]
 
         def ptxt(ps: list[Any]) -> str:
-            return ",".join(I.str_(p) for p in ps)
+            # the value of a parameter, not its printed form (which depends on the layout hint `indent`)
+            out = []
+            for p in ps:
+                if isinstance(p, AObj) and "indent" in p.attrs:
+                    out.append(p.cls.name + repr(sorted((k, v if not isinstance(v, dict) else sorted(v.items())) for k, v in p.attrs.items() if k != "indent")))
+                else:
+                    out.append(I.str_(p))
+            return ",".join(out)
         if name == jump_name:
             tgt = params[-1] if params else None
             if not isinstance(tgt, int) or tgt not in by_off:
